@@ -1412,22 +1412,49 @@ Proof.
   destruct (f a), (g a), (existsb f l), (existsb g l); reflexivity.
 Qed.
 
-(* meta tile and single tile strategies: a creation step one of whose upstream responses must not be cached, or ends in
-   the middle of the image data, stores nothing *)
-Lemma faulted_step_stores_nothing g bad cut plan : forall steps failed,
-  run_plan_faults g false bad cut plan = (steps, failed) ->
+Lemma existsb_orb3 {A} (f g h : A -> bool) (l : list A) :
+  existsb (fun x => f x || g x || h x) l = existsb f l || existsb g l || existsb h l.
+Proof.
+  induction l as [|a l IH]; [reflexivity|]. cbn [existsb]. rewrite IH.
+  destruct (f a), (g a), (h a), (existsb f l), (existsb g l), (existsb h l); reflexivity.
+Qed.
+
+(* every strategy: a creation step one of whose upstream requests raises stores nothing; meta tile and single tile
+   strategies: neither does a step one of whose responses must not be cached or ends in the middle of the image data *)
+Lemma faulted_step_stores_nothing g bad cut errs plan : forall steps failed,
+  run_plan_faults g false bad cut errs plan = (steps, failed) ->
   forall st, In st steps ->
-    existsb (fun rq => bbox_mem (fst rq) bad || bbox_mem (fst rq) cut) (fst st) = true -> snd st = [].
+    existsb (fun rq => bbox_mem (fst rq) bad || bbox_mem (fst rq) cut || bbox_mem (fst rq) errs) (fst st) = true -> snd st = [].
 Proof.
   induction plan as [|st0 plan IH]; intros steps failed Hrun st Hin Hf; cbn [run_plan_faults negb andb] in Hrun.
   - injection Hrun as <- _. destruct Hin.
-  - destruct (existsb (fun rq => bbox_mem (fst rq) cut) (fst st0)) eqn:Ecut.
+  - destruct (existsb (fun rq => bbox_mem (fst rq) errs) (fst st0)) eqn:Eerr.
+    { injection Hrun as <- _. destruct Hin as [<-|[]]. reflexivity. }
+    destruct (existsb (fun rq => bbox_mem (fst rq) cut) (fst st0)) eqn:Ecut.
     + injection Hrun as <- _. destruct Hin as [<-|[]]. reflexivity.
-    + destruct (run_plan_faults g false bad cut plan) as [r f] eqn:Er. injection Hrun as <- _.
+    + destruct (run_plan_faults g false bad cut errs plan) as [r f] eqn:Er. injection Hrun as <- _.
       destruct Hin as [<-|Hin]; [|exact (IH r f eq_refl st Hin Hf)].
       unfold step_with_faults in *.
       destruct (existsb (fun rq => bbox_mem (fst rq) bad) (fst st0)) eqn:Ebad; [reflexivity|].
-      rewrite existsb_orb, Ebad, Ecut in Hf. discriminate Hf.
+      rewrite existsb_orb3, Ebad, Ecut, Eerr in Hf. discriminate Hf.
+Qed.
+
+(* an upstream request that raises makes the whole request fail, whatever the strategy (bulk included): the tile is
+   never answered without image while the request looks successful *)
+Lemma upstream_error_fails g bulk bad cut errs plan steps failed :
+  run_plan_faults g bulk bad cut errs plan = (steps, failed) ->
+  existsb (fun st => existsb (fun rq : bbox * (Z * Z) => bbox_mem (fst rq) errs) (fst st)) plan = true ->
+  failed = true.
+Proof.
+  revert steps failed. induction plan as [|st0 plan IH]; intros steps failed Hrun Hex; [discriminate Hex|].
+  cbn [run_plan_faults] in Hrun. cbn [existsb] in Hex.
+  destruct (existsb (fun rq => bbox_mem (fst rq) errs) (fst st0)) eqn:Eerr.
+  - injection Hrun as _ <-. reflexivity.
+  - apply orb_true_iff in Hex. destruct Hex as [Hex|Hex]; [exfalso; exact (eq_true_false_abs _ Hex Eerr)|].
+    destruct (negb bulk && existsb (fun rq => bbox_mem (fst rq) cut) (fst st0)).
+    + injection Hrun as _ <-. reflexivity.
+    + destruct (run_plan_faults g bulk bad cut errs plan) as [r f] eqn:Er. injection Hrun as _ <-.
+      exact (IH r f eq_refl Hex).
 Qed.
 
 (* bulk strategy: a tile whose own response must not be cached is not among the stored tiles *)
@@ -1439,18 +1466,36 @@ Proof.
 Qed.
 
 (* a response that ends in the middle of the image data makes the request fail *)
-Lemma cut_response_fails g bad cut (st : step) plan :
+Lemma cut_response_fails g bad cut errs (st : step) plan :
+  existsb (fun rq : bbox * (Z * Z) => bbox_mem (fst rq) errs) (fst st) = false ->
   existsb (fun rq : bbox * (Z * Z) => bbox_mem (fst rq) cut) (fst st) = true ->
-  run_plan_faults g false bad cut (st :: plan) = ([(fst st, [])], true).
-Proof. intros H. cbn [run_plan_faults negb andb]. rewrite H. reflexivity. Qed.
+  run_plan_faults g false bad cut errs (st :: plan) = ([(fst st, [])], true).
+Proof. intros He H. cbn [run_plan_faults negb andb]. rewrite He, H. reflexivity. Qed.
 
 Example faults_example :
   let m := mkMG (mkGrid 0 0 320 160 8 8 [10] false 115 100 4 1) 2 2 0 in
   (* bulk: the response for tile (1,1,0) must not be cached *)
-  request_with_faults m true false true [] [(80, 80, 160, 160)] [] [(0, 0, 0)] =
+  request_with_faults m true false true [] [(80, 80, 160, 160)] [] [] [(0, 0, 0)] =
     Some ([((0, 80, 80, 160), (8, 8)); ((80, 80, 160, 160), (8, 8)); ((0, 0, 80, 80), (8, 8)); ((80, 0, 160, 80), (8, 8))],
           [(0, 1, 0); (0, 0, 0); (1, 0, 0)], false) /\
   (* meta tiles: the second response is cut off *)
-  request_with_faults m true false false [] [] [(160, 0, 320, 160)] [(0, 0, 0); (2, 1, 0)] =
+  request_with_faults m true false false [] [] [(160, 0, 320, 160)] [] [(0, 0, 0); (2, 1, 0)] =
     Some ([((0, 0, 160, 160), (16, 16)); ((160, 0, 320, 160), (16, 16))], [(0, 1, 0); (1, 1, 0); (0, 0, 0); (1, 0, 0)], true).
 Proof. vm_compute. split; reflexivity. Qed.
+
+(* a source with alpha and a clipping coverage in front of an opaque cache: the same equality (clip and background are
+   applied by merge_images on both ways; the shortcut of _query_sources is never taken for a query that intersects
+   the coverage) *)
+Lemma meta_clip_colour_equals_single m q inside cx cy z j k :
+  mwf m -> valid_level (mg_grid m) z = true -> 0 < q ->
+  0 <= cx < fst (grid_size (mg_grid m) z) -> 0 <= cy < snd (grid_size (mg_grid m) z) ->
+  no_buffer_cut m cx cy z ->
+  0 <= j < tw (mg_grid m) -> 0 <= k < th (mg_grid m) ->
+  model_clip_colour m q HowMeta inside (cx, cy, z) j k = model_clip_colour m q HowSingle inside (cx, cy, z) j k.
+Proof.
+  intros. unfold model_clip_colour. rewrite (meta_equals_single_lemma m q cx cy z j k) by assumption. reflexivity.
+Qed.
+
+Lemma contained_query_takes_merge_path c q :
+  bbox_intersects c q = true -> takes_merge_path true (Some c) q = true.
+Proof. intros H. unfold takes_merge_path. rewrite H. reflexivity. Qed.
